@@ -180,14 +180,32 @@ def feature_case(kind, doc, model_particle_text, items, info=None):
     return {"kind": kind, "request": req, "n": len(items), "strict_penalty": [f for _, _, f in items],
             "words": [w for _, w, _ in items], "info": info or {}}
 
+def same_map_entry(l1, l2):
+    """do two leaves get the same DFAContentModel element-map entry (buildDFA: equal leaf type, URI and local part)?
+    elements: same qualified name; wildcards: same kind incl. processContents and same namespace"""
+    if l1[0] != l2[0]:
+        return False
+    if l1[0] == "E":
+        return tuple(l1[3]) == tuple(l2[3])
+    c1, c2 = l1[3], l2[3]
+    if l1[5] != l2[5] or c1[0] != c2[0]:
+        return False
+    if c1[0] == "any":
+        return True
+    if c1[0] == "not":
+        return c1[1] == c2[1]
+    return bool(set(c1[1]) & set(c2[1]))
+
+
 def shared_name_counting(p):
-    """two leaves with the same name (or two wildcards) in one content model, at least one of them with an occurrence
-    range that is not one of 1..1, 0..1, 0..inf, 1..inf (so that the compact counting form may be used)"""
+    """two leaves with the same element-map entry (same element name / same wildcard kind and namespace), at least one of them with an occurrence
+    range that is not one of 1..1, 0..1, 0..inf, 1..inf (so that the compact counting form may be used).  Consulted only
+    when the runs with schema-full-checking off disagree with the runs with it on and the latter satisfy the Spec."""
     ls = G.leaves(p)
     plain = {(1, 1), (0, 1), (0, -1), (1, -1)}
     for i in range(len(ls)):
         for j in range(i + 1, len(ls)):
-            same = (ls[i][0] == ls[j][0] == "E" and tuple(ls[i][3]) == tuple(ls[j][3])) or (ls[i][0] == ls[j][0] == "W")
+            same = same_map_entry(ls[i], ls[j])
             if same and ((ls[i][1], ls[i][2]) not in plain or (ls[j][1], ls[j][2]) not in plain):
                 return True
     return False
@@ -268,6 +286,49 @@ def gen_cases(ctx):
         else:
             al = [a, b, c]
         cases.append(cm_case("repeated-name-upa-valid", p, G.exhaustive(al, 7 if thorough else 6, 1100 if not thorough else 4000), rng))
+    # ---- 1c. a counted particle followed by a counted particle that matches the same name (handleRepetitions:
+    #          overflow search "deeper in the element map", counter of the newly entered counting state) -----------
+    x_ = (3, 6)
+    seconds = [("W", ("any",), "##any", "skip"), ("W", ("set", [2]), "##targetNamespace", "lax"),
+               ("W", ("set", [2, 3]), "##targetNamespace urn:u", "skip"), ("E", a)]
+    first_occs = [(n, n) for n in (2, 3, 4)] + [(2, 3), (3, 5), (2, -1), (4, -1)]
+    second_occs = [(2, 3), (3, 3), (2, -1), (1, 1), (0, 1), (1, 2), (4, 4)]
+    combos = [(fo, so, sk) for fo in first_occs for so in second_occs for sk in range(len(seconds))]
+    if not thorough:
+        keep = [c for c in combos if c[0][0] == c[0][1]]
+        rest = [c for c in combos if c[0][0] != c[0][1]]
+        rng.shuffle(keep); rng.shuffle(rest)
+        combos = keep[:40] + rest[:8]
+    for (fm, fn), (sm, sn), sk in combos:
+        sec = seconds[sk]
+        second = ("W", sm, sn, sec[1], sec[2], sec[3]) if sec[0] == "W" else E(sm, sn, a, "ref")
+        # a trailing particle that the second particle does not match (else the model is genuinely ambiguous)
+        tail = rng.random() < 0.3 and not (sec[0] == "W" and sec[1] == ("any",))
+        tb = (1, 2)
+        kids = [E(fm, fn, a), second] + ([E(1, 1, tb)] if tail else [])
+        p = ("S", 1, 1, kids, "inline")
+        upa_ok = fm == fn
+        if not upa_ok:
+            # {n,m} with n<m (or unbounded) followed by a particle matching the same name violates UPA
+            sc = G.Schema(); sc.uses_u = True; sc.globals_t.add(5)
+            body = sc.render_particle(p)
+            doc = sc.document('<xs:element name="r"><xs:complexType>%s</xs:complexType></xs:element>' % body, "")
+            cases.append(schema_case("schema-upa-counted-overlap", doc, True, False, info={"particle": G.model_particle(p)}))
+            continue
+        smax = sm + 2 if sn < 0 else sn
+        other = x_ if (sec[0] == "W" and G.wild_allows(sec[1], 3)) else None
+        words, seen = [], set()
+        def addw(w):
+            if tuple(w) not in seen and len(w) <= fm + smax + 4:
+                seen.add(tuple(w)); words.append(w)
+        for i in range(max(0, fm - 1), fm + smax + 3):
+            for j in range(0, smax + 2):
+                for k in range(0, 3):
+                    w = [a] * i + ([other] * j if other else []) + [a] * (k if other else 0)
+                    addw(w + ([tb] if tail else []))
+                    if tail and i == fm and k == 0:
+                        addw(w)
+        cases.append(cm_case("counted-overlap", p, words, rng, info={"first": [fm, fn], "second": [sm, sn], "kind": sec[2] if sec[0] == "W" else "same-name"}))
     # ---- 2. random deterministic particles: exhaustive short child sequences + boundary samples --------------
     nrand = 110 if not thorough else 2000
     for i in range(nrand):
@@ -427,6 +488,77 @@ def gen_cases(ctx):
                       [(G.instance([t]), w, f) for t, w, f, _ in items])
     fc["expect_kids"] = [x[3] for x in items]
     cases.append(fc)
+    # xsi:type along derivation chains T1 <- T2 <- T3 <- T4 with mixed methods x block on element / declared type /
+    # blockDefault; the instance content (one <a/>) is valid for every type of the chain, so the verdict is the
+    # xsi:type decision alone (Spec: xsitype_okb, proved = 3.3.4 clause 4.3 / 3.4.6 in T08_xsitype_dec)
+    blk_vals = [None, "", "extension", "restriction", "#all", "extension restriction"]
+    bset = lambda v: (("extension" in v or "#all" in v), ("restriction" in v or "#all" in v))
+    configs = []
+    for methods in itertools.product("er", repeat=3):
+        for declared in (1, 2):
+            for ebv in blk_vals:
+                for tbv in blk_vals:
+                    for bd in (None, "extension", "restriction", "#all"):
+                        configs.append((methods, declared, ebv, tbv, bd))
+    rng.shuffle(configs)
+    # always include the canonical witnesses: Base <-ext- Mid <-restr- Leaf with block=extension on element / on type
+    fixed_cfgs = [(("e", "r", "e"), 1, "extension", None, None), (("e", "r", "r"), 1, None, "extension", None),
+                  (("r", "e", "e"), 1, "restriction", None, None), (("r", "e", "r"), 1, None, None, "restriction"),
+                  (("e", "e", "r"), 2, None, "restriction", None), (("e", "r", "e"), 1, None, None, "#all")]
+    nx = 70 if not thorough else 900
+    for (methods, declared, ebv, tbv, bd) in fixed_cfgs + configs[:nx]:
+        abstract_k = rng.choice([None, None, None, 2, 3, 4, 1])
+        new_el = {2: b, 3: c, 4: d}
+        content = {1: ("S", 1, 1, [E(0, 2, a)], "inline")}
+        types = ""
+        scx = G.Schema()
+        for k in (1, 2, 3, 4):
+            attrs = ""
+            if k == declared and tbv is not None:
+                attrs += ' block="%s"' % tbv
+            if abstract_k == k:
+                attrs += ' abstract="true"'
+            if k == 1:
+                types += '<xs:complexType name="T1"%s>%s</xs:complexType>' % (attrs, scx.render_particle(content[1]))
+                continue
+            m = methods[k - 2]
+            if m == "e":
+                own = ("S", 1, 1, [E(0, 1, new_el[k])], "inline")
+                content[k] = ("S", 1, 1, [content[k - 1], own], "inline")
+                inner = "<xs:extension base=\"t:T%d\">%s</xs:extension>" % (k - 1, scx.render_particle(own))
+            else:
+                content[k] = content[k - 1]
+                inner = "<xs:restriction base=\"t:T%d\">%s</xs:restriction>" % (k - 1, scx.render_particle(content[k]))
+            types += '<xs:complexType name="T%d"%s><xs:complexContent>%s</xs:complexContent></xs:complexType>' % (k, attrs, inner)
+        types += '<xs:complexType name="U"><xs:sequence><xs:element name="a" type="xs:string" minOccurs="0"/></xs:sequence></xs:complexType>'
+        eattr = "" if ebv is None else ' block="%s"' % ebv
+        sattr = "" if bd is None else ' blockDefault="%s"' % bd
+        doc = ('<xs:schema xmlns:xs="%s" xmlns:t="urn:t" targetNamespace="urn:t" elementFormDefault="qualified"%s>'
+               '<xs:element name="r" type="t:T%d"%s/>%s</xs:schema>' % (G.XSD, sattr, declared, eattr, types))
+        eff_e = bset(ebv if ebv is not None else (bd or ""))
+        eff_t = bset(tbv if tbv is not None else (bd or ""))
+        fl = lambda bs_: "%d%d" % (1 if bs_[0] else 0, 1 if bs_[1] else 0)
+        items, insts = [], []
+        for k in (1, 2, 3, 4, 9, 0):
+            if k == 0:
+                # no xsi:type at all: valid unless the declared type is abstract (then modelled as an abstract xsi:type)
+                chain = ",".join("%d:%s" % (j, methods[j - 2] if j > 1 else "r") for j in range(declared, 0, -1))
+                items.append("%d %s" % (1 if abstract_k == declared else 0, chain))
+                insts.append(G.instance([a]))
+                continue
+            if k == 9:
+                items.append("0 9:r")
+                insts.append(G.instance([a], rootattrs=' xsi:type="t:U"'))
+                continue
+            chain = ",".join("%d:%s" % (j, methods[j - 2] if j > 1 else "r") for j in range(k, 0, -1))
+            items.append("%d %s" % (1 if abstract_k == k else 0, chain))
+            insts.append(G.instance([a], rootattrs=' xsi:type="t:T%d"' % k))
+        model = "xt %d %s %s ; %s" % (declared, fl(eff_e), fl(eff_t), " ; ".join(items))
+        req = G.request(model, [("main.xsd", doc)], "main.xsd", insts)
+        cases.append({"kind": "xsitype-chain", "request": req, "n": len(items), "strict_penalty": [False] * len(items),
+                      "words": [[a]] * len(items),
+                      "info": {"methods": "".join(methods), "declared": declared, "elem_block": ebv, "type_block": tbv,
+                               "blockDefault": bd, "abstract": abstract_k}})
     # xsi:nil
     for nillable in (True, False):
         doc = (HDR + '<xs:element name="r" nillable="%s"><xs:complexType><xs:sequence><xs:element name="a" type="xs:string" '
